@@ -520,6 +520,95 @@ def generic_law(rep: common.Report) -> int:
     return n
 
 
+PATH_SRC = '''
+from dataclasses import dataclass, field
+from typing import Dict, List, Optional
+from apischema import deserializer, serializer
+from apischema.metadata import conversion
+
+
+class Pay:
+    def __init__(self, x: int):
+        self.x = x
+
+    def __eq__(self, other):
+        return type(other) is Pay and other.x == self.x
+
+    def __repr__(self):
+        return f"Pay({self.x})"
+
+
+@serializer
+def pay_to_str(p: Pay) -> str:
+    return f"P{p.x}"
+
+
+@deserializer
+def pay_from_str(s: str) -> Pay:
+    return Pay(int(s[1:]))
+
+
+def pay_to_int(p: Pay) -> int:
+    return p.x
+
+
+def pay_from_int(i: int) -> Pay:
+    return Pay(i)
+
+
+@dataclass
+class RA:                                     # RA and RB are mutually recursive through a mapping
+    bs: Dict[str, "RB"]
+
+
+@dataclass
+class RB:
+    p: Pay = field(metadata=conversion(deserialization=pay_from_int, serialization=pay_to_int))   # declared HERE only
+    q: Optional[Pay] = None                    # the registered conversion
+    a: Optional[RA] = None
+'''
+
+
+def path_independence_law(rep: common.Report) -> int:
+    """'Field and sub-conversions apply only where declared': on the real code, for mutually recursive classes one
+    of whose fields declares its own conversion, the image of a value does not depend on the PATH by which its class
+    is reached -- serialize(C[T], C(v)) = C(serialize(T, v)) for the containers C, in both directions and whatever
+    was compiled first."""
+    import apischema.cache
+    from typing import Dict, List, Optional
+
+    from apischema import deserialize, serialize
+
+    mod = types.ModuleType("verifconvpath")
+    sys.modules["verifconvpath"] = mod
+    exec(compile(PATH_SRC, "<verifconvpath>", "exec"), mod.__dict__)
+    b = mod.RB(mod.Pay(1), mod.Pay(2), mod.RA({}))
+    a = mod.RA({"k": b})
+    want_b = {"p": 1, "q": "P2", "a": {"bs": {}}}
+    want_a = {"bs": {"k": want_b}}
+    n = 0
+    paths = [("RB", mod.RB, b, want_b), ("RA", mod.RA, a, want_a), ("List[RB]", List[mod.RB], [b], [want_b]),
+             ("Dict[str, RB]", Dict[str, mod.RB], {"k": b}, {"k": want_b}), ("List[RA]", List[mod.RA], [a], [want_a]),
+             ("Dict[str, RA]", Dict[str, mod.RA], {"x": a}, {"x": want_a}), ("Optional[RA]", Optional[mod.RA], a, want_a),
+             ("Pay", mod.Pay, mod.Pay(3), "P3"), ("List[Pay]", List[mod.Pay], [mod.Pay(3)], ["P3"])]
+    # every path FIRST (fresh caches), then all of them in sequence on shared caches, in both orders
+    for order in [[p] for p in paths] + [paths, paths[::-1]]:
+        apischema.cache.reset()
+        for label, tp, value, want in order:
+            n += 1
+            try:
+                got = serialize(tp, value)
+                back = deserialize(tp, want)
+            except Exception as exc:
+                rep.violation(f"path independence: {label} raised {type(exc).__name__}: {exc}", {"path": label})
+                continue
+            if got != want or back != value:
+                rep.violation(f"path independence: serialize({label}, v) = {got!r} (expected {want!r}: field-level conversion on RB.p only, "
+                              f"registered one elsewhere); deserialize back = {back!r}", {"path": label, "first": order[0][0]})
+    apischema.cache.reset()
+    return n
+
+
 def main() -> int:
     rep = common.Report("C12", "model_checking")
     tier = "thorough" if common.tier() == "thorough" else "quick"
@@ -556,6 +645,7 @@ def main() -> int:
                 rep.violations.extend(viols)
                 rep.add("unspecified_union_without_alternative", unspec)
     rep.set("generic_conversion_law_cases", generic_law(rep))
+    rep.set("path_independence_cases", path_independence_law(rep))
     rep.set("states", states)
     rep.set("transitions", trans)
     rep.set("traces_validated_against_impl", n)
